@@ -1,10 +1,22 @@
-// harness binary of group "questrade" (stub: replaced by the group's modes)
+// harness binary of group "questrade": C18 (qt_*) and C20 (fmv_*, pages, iter)
 #[path = "hcommon.rs"]
 mod hcommon;
+mod fmv_mode;
+mod qt_mode;
 #[allow(dead_code)]
 mod util;
 pub use hcommon::guarded;
 
 fn main() {
-    hcommon::run_main(&[]);
+    hcommon::run_main(&[
+        ("qt_sheet", qt_mode::handle_sheet),
+        ("qt_file", qt_mode::handle_file),
+        ("qt_csv", qt_mode::handle_csv),
+        ("fmv_re", fmv_mode::handle_re),
+        ("fmv_page", fmv_mode::handle_page),
+        ("fmv_stmt", fmv_mode::handle_stmt),
+        ("pages", fmv_mode::handle_pages),
+        ("iter", fmv_mode::handle_iter),
+        ("stmt_iter", fmv_mode::handle_stmt_iter),
+    ]);
 }
